@@ -10,6 +10,7 @@ CONSTANTS
   RcKeys <- RcKeysQuick
   Retries = 1
   T0 = 1000000
+  StructKinds <- StructAll
 SPECIFICATION Spec
 INVARIANT Emit
 CHECK_DEADLOCK FALSE
